@@ -151,14 +151,22 @@ def run_verus_template(tpl, repo, res, pid, tier):
             text = open(cpath).read()
             bad = []
             errlines = set()
+            lines = text.split('\n')
+            canary_ranges = []
+            for cname, orig in names:
+                idx = next(i for i, l in enumerate(lines, 1) if l.startswith(f'proof fn {cname}('))
+                canary_ranges.append((idx, idx + 4))
             for d in rc['diags']:
                 if d.get('level') == 'error':
                     for sp in d.get('spans', []):
                         errlines.add(sp['line_start'])
                     msg = d.get('message', '')
                     if not (any(p in msg for p in V.FAIL_PATTERNS) or msg.startswith('aborting')):
-                        res.undecided.append(f'[{name}] canary file error: {d.get("rendered", msg)[:800]}')
-            lines = text.split('\n')
+                        # The canary file re-verifies the whole template; only the canaries matter here (every other item
+                        # was decided by the main run). A resource-limit message on a non-canary item is ignored.
+                        in_canary = any(a <= sp['line_start'] <= b for sp in d.get('spans', []) for a, b in canary_ranges)
+                        if in_canary or not any(p in msg for p in V.UNDECIDED_PATTERNS):
+                            res.undecided.append(f'[{name}] canary file error: {d.get("rendered", msg)[:800]}')
             for cname, orig in names:
                 # the canary's `ensures false` line must be within an error span
                 idx = next(i for i, l in enumerate(lines, 1) if l.startswith(f'proof fn {cname}('))
@@ -196,8 +204,15 @@ def finish(pid, tier, seed, res, contract, t0, repo):
     confirmed = []
     for ob in violations:
         lost = any(ob['id'] in l for l in res.rewrites if l.startswith('GHOST-ANCHOR-LOST'))
+        msgs = [m for m in (ob.get('detail') or '').split('\n') if m.startswith('error') or m.startswith('[proof-hint step]')]
+        hint_only = ob['engine'] == 'verus' and msgs and all(m.startswith('[proof-hint step]') for m in msgs)
         if lost and not ob['replay_info'].get('failing_input'):
             res.undecided.append(f"{ob['id']}: proof hint anchor lost and no failing input found -> undecided")
+        elif hint_only and ob['replay_info'].get('searched') and not ob['replay_info'].get('failing_input'):
+            # only steps of the inserted proof script failed (an assert / lemma precondition inside ghost text) AND a native
+            # search on the real text found no failing input: the proof did not go through on this tree, but nothing was
+            # refuted -> undecided. (Without a native search the failed step is reported: it passed on the unchanged tree.)
+            res.undecided.append(f"{ob['id']}: only proof-hint steps failed (no contract clause refuted) and no failing input found -> undecided")
         else:
             confirmed.append(ob)
     violations = confirmed
